@@ -44,6 +44,21 @@ ROUND2 = [
  ("C08-r2m1", "C08", "/tmp/mut2-c08", "OUT/m1", "cc -I src {d}/demo.c src/varintBitmap.c -o {bin}"),
  ("C08-r2m2", "C08", "/tmp/mut2-c08", "OUT/m2", "cc -I src {d}/demo.c src/varintBitmap.c -o {bin}"),
  ("C08-r2m3", "C08", "/tmp/mut2-c08", "OUT/m3", "cc -I src {d}/demo.c src/varintBitmap.c -o {bin}"),
+ ("C14-r3m1", "C14", "/tmp/mut3-c14", "OUT/m1", "cc -fsanitize=address -g -O1 -Isrc {d}/demo.c src/varintDict.c src/varintTagged.c src/varintExternal.c -o {bin}"),
+ ("C14-r3m2", "C14", "/tmp/mut3-c14", "OUT/m2", "cc -fsanitize=address -g -O1 -Isrc {d}/demo.c src/varintBitmap.c -o {bin}"),
+ ("C13-r3m3", "C13", "/tmp/mut3-c14", "OUT/m3", "cc -fsanitize=address -g -O1 -Isrc {d}/demo.c src/varintAdaptive.c src/varintDelta.c src/varintFOR.c src/varintPFOR.c src/varintDict.c src/varintBitmap.c src/varintTagged.c src/varintExternal.c -o {bin}"),
+ ("C13-r3m4", "C13", "/tmp/mut3-c14", "OUT/m4", "cc -fsanitize=address -g -O1 -Isrc {d}/demo.c src/varintRLE.c src/varintTagged.c -o {bin}"),
+ ("C09-r3m1", "C09", "/tmp/mut3-c09", "OUT/m1", "gcc -O2 -w -Isrc {d}/demo.c -o {bin}"),
+ ("C09-r3m2", "C09", "/tmp/mut3-c09", "OUT/m2", "gcc -O2 -w -Isrc {d}/demo.c -o {bin}"),
+ ("C10-r3m3", "C10", "/tmp/mut3-c09", "OUT/m3", "gcc -O2 -w -Isrc {d}/demo.c src/varintDimension.c src/varintExternal.c -o {bin}"),
+ ("C10-r3m4", "C10", "/tmp/mut3-c09", "OUT/m4", "gcc -O2 -w -mf16c -Isrc {d}/demo.c src/varintDimension.c src/varintExternal.c -o {bin}"),
+ ("C18-r3m1", "C18", "/tmp/mut3-c18", "OUT/m1", "gcc -g -O1 -fsanitize=address -Isrc -I{d} {d}/demo.c src/varintTagged.c src/varintExternal.c src/varintExternalBigEndian.c src/varintChained.c src/varintChainedSimple.c src/varintDelta.c src/varintFOR.c src/varintPFOR.c src/varintGroup.c src/varintDict.c src/varintRLE.c src/varintElias.c src/varintBP128.c src/varintFloat.c src/varintAdaptive.c src/varintBitmap.c src/varintDimension.c -Wl,--wrap=malloc,--wrap=calloc,--wrap=realloc,--wrap=free -lm -o {bin}"),
+ ("C18-r3m2", "C18", "/tmp/mut3-c18", "OUT/m2", "gcc -g -O1 -fsanitize=address -Isrc -I{d} {d}/demo.c src/varintTagged.c src/varintExternal.c src/varintExternalBigEndian.c src/varintChained.c src/varintChainedSimple.c src/varintDelta.c src/varintFOR.c src/varintPFOR.c src/varintGroup.c src/varintDict.c src/varintRLE.c src/varintElias.c src/varintBP128.c src/varintFloat.c src/varintAdaptive.c src/varintBitmap.c src/varintDimension.c -Wl,--wrap=malloc,--wrap=calloc,--wrap=realloc,--wrap=free -lm -o {bin}"),
+ ("C18-r3m3", "C18", "/tmp/mut3-c18", "OUT/m3", "gcc -g -O1 -fsanitize=address -Isrc -I{d} {d}/demo.c src/varintTagged.c src/varintExternal.c src/varintExternalBigEndian.c src/varintChained.c src/varintChainedSimple.c src/varintDelta.c src/varintFOR.c src/varintPFOR.c src/varintGroup.c src/varintDict.c src/varintRLE.c src/varintElias.c src/varintBP128.c src/varintFloat.c src/varintAdaptive.c src/varintBitmap.c src/varintDimension.c -Wl,--wrap=malloc,--wrap=calloc,--wrap=realloc,--wrap=free -lm -o {bin}"),
+ ("C15-r3m1", "C15", "/tmp/mut3-c15", "OUT/m1", "gcc -O2 -I src -o {bin} {d}/demo.c src/varintPFOR.c src/varintTagged.c src/varintExternal.c"),
+ ("C15-r3m2", "C15", "/tmp/mut3-c15", "OUT/m2", "gcc -O2 -I src -o {bin} {d}/demo.c src/varintFloat.c src/varintExternal.c src/varintDelta.c -lm"),
+ ("C17-r3m3", "C17", "/tmp/mut3-c15", "OUT/m3", "clang -g -O1 -fsanitize=thread -I src -o {bin} {d}/demo.c src/varintDict.c src/varintTagged.c src/varintExternal.c -lpthread"),
+ ("C17-r3m4", "C17", "/tmp/mut3-c15", "OUT/m4", "clang -g -O1 -fsanitize=thread -I src -o {bin} {d}/demo.c src/varintBP128.c src/varintTagged.c src/varintExternal.c -lpthread"),
  ("C08-x1", "C08", "/tmp/mut2-c08", "OUT/x1", "cc -I src {d}/demo.c src/varintBitmap.c -o {bin}"),
  ("C08-x2", "C08", "/tmp/mut2-c08", "OUT/x2", "cc -I src {d}/demo.c src/varintBitmap.c -o {bin}"),
  ("C08-r3m1", "C08", "/tmp/mut2-c08", "OUT/m1", "cc -I src {d}/demo.c src/varintBitmap.c -o {bin}"),
